@@ -19,12 +19,13 @@ RULE = ("funding/spending pairs for p2pk, p2pkh, bare multisig, p2sh (multisig, 
         "random flag subsets, plus the six real pairs of doc/txs; outcome of the implementation compared with the model on every case and with the "
         "by-construction validity under standard flags. non-trivial = the pair parsed and an input was selected; distinct = distinct (pair, flags, select)")
 
-KINDS = ["bare-if", "p2pkh", "p2pk", "multisig", "p2sh", "p2sh-codesep", "p2wpkh", "p2sh-p2wpkh", "p2wsh", "p2sh-p2wsh", "p2wsh-codesep", "p2tr-key", "p2tr-script", "p2tr-csa", "p2tr-codesep"]
+KINDS = ["bare-if", "p2wsh-hashlock", "p2pkh", "p2pk", "multisig", "p2sh", "p2sh-codesep", "p2wpkh", "p2sh-p2wpkh", "p2wsh", "p2sh-p2wsh", "p2wsh-codesep", "p2tr-key", "p2tr-script", "p2tr-csa", "p2tr-codesep"]
 SEGWIT = {"p2wpkh", "p2sh-p2wpkh", "p2wsh", "p2sh-p2wsh", "p2wsh-codesep"}
 TAPS = {"p2tr-script", "p2tr-csa", "p2tr-codesep"}
 
 def mutations(kind):
     if kind == "bare-if": return [None, "openif", "altcarry", "altown"]
+    if kind == "p2wsh-hashlock": return [None, "wrongkey"]
     m = [None, "wrongkey", "sigbyte", "output", "sequence", "locktime"]
     if kind in SEGWIT or kind in TAPS or kind == "p2tr-key": m.append("amount")
     if kind in ("p2sh", "p2wpkh", "p2sh-p2wpkh", "p2wsh", "p2sh-p2wsh"): m.append("scripthash")
